@@ -170,6 +170,10 @@ impl OverlayBuilder {
         tc: &Toolchain,
         tccache: &Mutex<TcCache>,
     ) -> Result<OverlaySpec> {
+        // The id names the unpacked toolchain and the build directory
+        if !tc.archive_id_is_valid() {
+            bail!("invalid toolchain id {:?}", tc.archive_id);
+        }
         let DeflatedToolchain {
             path: toolchain_dir,
             build_count: id,
